@@ -242,7 +242,9 @@ Contract(
     loops={1: LoopSpec("while", inv=_WALK, assume=[
         ("pass_ == 0 or npoints < (points.shape[0] - 2) // 2 or (npoints == (points.shape[0] - 2) // 2 and prev_forward == forward)",
          "the second pass retraces the first (same deterministic walk: visited is written but never read), so it meets at most the "
-         "npoints corners counted in the first pass, for which the buffer was sized (relational fact about two runs of the loop; not proved)"),
+         "npoints corners counted in the first pass, for which the buffer was sized - proved as an invariant by the second contract of the "
+         "same function, _follow@retrace (ghost trace of pass 0, both passes advance by the spec step fw_next_*); assumed here only so "
+         "that the two sets of invariants stay apart"),
     ], cut=[
         # one iteration moves the corner exactly one step in the heading it had (straight, left turn in place, right turn into the next cell)
     ] + ["turn != %d or fw_along(gcx, gcy, %s, %s, gfw, 1, nx)" % (t, _CX, _CY) for t in (0, -1, 1)] + [
@@ -266,3 +268,69 @@ Contract(
     notes="requires nx >= 2: with a single column E (+1) and N (+nx) coincide; polygonize adds a column for that case",
 )
 
+
+# ---- _follow once more: the second pass retraces the first.  Ghost trace of pass 0 (state of every iteration at the point where
+# `ijnext` is computed, i.e. after a possible vertex emission): tij / tfw / tlf / tnp, gt = iterations so far, gT = iterations of
+# pass 0.  Both passes are shown to advance by the same spec step fw_next_* (a function of the state and of `regions`, which is
+# not written), so pass 1 is in the recorded state at every iteration and has stored at most the vertices pass 0 counted there.
+_ST = lambda i: "regions, region, tij[%s], tfw[%s], tlf[%s], nx, n" % (i, i, i)
+_CUR = "regions, region, gij, gfw, glf, nx, n"
+_TR = "(gt if pass_ == 0 else gT)"
+_RETR = [
+    "n == nx * ny and 0 <= ij and ij < n and regions[ij] == region and visited.shape[0] == n and 0 <= start_ij and start_ij < n",
+    _DIRS, "npoints >= 0 and gt >= 0 and gT >= 0",
+    "(npoints == 0) == (prev_forward == 0)",
+    "(gt == 0) == (prev_forward == 0)",
+    "gt > 0 or (ij == start_ij and forward == start_forward and left == start_left)",
+    # what the trace holds so far (pass 0) / held at the end of pass 0 (pass 1)
+    "all(tij[t + 1] == fw_next_ij(%s) and tfw[t + 1] == fw_next_fw(%s) and tlf[t + 1] == fw_next_lf(%s) for t in range(0, %s - 1) if trig(t))"
+    % (_ST("t"), _ST("t"), _ST("t"), _TR),
+    "all(tnp[t + 1] == tnp[t] + (1 if tfw[t + 1] != tfw[t] else 0) for t in range(0, %s - 1) if trig(t))" % _TR,
+    "%s == 0 or (tij[0] == start_ij and tfw[0] == start_forward and tlf[0] == start_left and tnp[0] == 1)" % _TR,
+    "all(tnp[t] <= (npoints if pass_ == 0 else gnp0) for t in range(0, %s) if trig(t))" % _TR,
+    # the current state is the spec step of the last recorded one
+    "gt == 0 or (ij == fw_next_ij(%s) and forward == fw_next_fw(%s) and left == fw_next_lf(%s) and prev_forward == tfw[gt - 1])"
+    % (_ST("gt - 1"), _ST("gt - 1"), _ST("gt - 1")),
+    "gt == 0 or tnp[gt - 1] == npoints",
+    # pass 1: same state as pass 0 at the same iteration, an entry is still recorded for it
+    "pass_ == 0 or (gt < gT and points.shape[0] == 2 * (gnp0 + 1) and gnp0 >= 1)",
+    "pass_ == 0 or (ij == tij[gt] and forward == tfw[gt] and left == tlf[gt])",
+    "pass_ == 0 or (fw_next_ij(%s) == start_ij and fw_next_fw(%s) == start_forward)" % (_ST("gT - 1"), _ST("gT - 1")),
+    # the fact the main contract of _follow assumes at its loop head - here it is an invariant
+    "pass_ == 0 or npoints < (points.shape[0] - 2) // 2 or (npoints == (points.shape[0] - 2) // 2 and prev_forward == forward)",
+    # (always true: names the trace indices at which the quantified facts above are to be used)
+    "trig(0) and trig(gt) and trig(gt - 1) and trig(gt - 2) and trig(gT - 1) and trig(gT - 2)",
+]
+Contract(
+    M, "_follow@retrace", {"regions": "i1", "visited": "i1", "nx": "int", "ny": "int", "ij": "int", "hole": "bool"},
+    ghost_params={"tij": "i1", "tfw": "i1", "tlf": "i1", "tnp": "i1"},
+    lets=[("n0", "nx * ny")],
+    requires=["nx >= 2 and ny >= 1", "regions.shape[0] == n0 and visited.shape[0] == n0", "0 <= ij and ij < n0"],
+    modifies=("visited", "tij", "tfw", "tlf", "tnp"),
+    result=("int", "f2"),
+    ensures=["result[0] == regions[ij]"],
+    loops={1: LoopSpec("while", inv=_RETR, cut=[
+        # the code's step is the spec step (gij, gfw, glf: the state at the point where ijnext is computed)
+        "ij == fw_next_ij(%s) and forward == fw_next_fw(%s) and left == fw_next_lf(%s) and prev_forward == gfw" % (_CUR, _CUR, _CUR),
+    ], post=[
+        "n == nx * ny and visited.shape[0] == n and npoints >= 1 and gt >= 1",
+        "ij == start_ij and 0 <= ij and ij < n and regions[ij] == region",
+        "pass_ == 1 or (tnp[gt - 1] == npoints and fw_next_ij(%s) == start_ij and fw_next_fw(%s) == start_forward)"
+        % (_ST("gt - 1"), _ST("gt - 1")),
+        "pass_ == 1 or (" + " and ".join("(%s)" % x for x in _RETR[6:10]) + ")",
+    ])},
+    ghost={"after_assign": {
+        "region<-regions[ij]": ["gt = 0\ngT = 0\ngnp0 = 0"],
+        "start_forward<-forward": ["start_left = left"],
+        "npoints<-0": ["gT = gt\ngnp0 = tnp[gt - 1] if gt > 0 else 0\ngt = 0"],
+        "ijnext<-ij + forward": [
+            "gij = ij\ngfw = forward\nglf = left",
+            "if pass_ == 0:\n    tij[gt] = ij\n    tfw[gt] = forward\n    tlf[gt] = left\n    tnp[gt] = npoints",
+            "gt = gt + 1",
+            "assert trig(0) and trig(gt) and trig(gt - 1) and trig(gt - 2) and trig(gt - 3) and trig(gT - 1) and trig(gT - 2)",
+        ],
+    }},
+    options={"ghost_spec_mode": True},
+    props=("C15",), native={"skip": True},
+    notes="discharges the retrace assumption of the main _follow contract",
+)
